@@ -96,10 +96,10 @@ type scopeRun struct {
 	recC     *recCached
 	root     tally.Scope
 	closer   io.Closer
-	scopes   []tally.Scope         // by observed id
-	scopeID  map[tally.Scope]int   // pointer identity
+	scopes   []tally.Scope       // by observed id
+	scopeID  map[tally.Scope]int // pointer identity
 	closed   map[int]bool
-	metrics  []interface{}         // by observed id
+	metrics  []interface{} // by observed id
 	metricID map[interface{}]int
 	mkind    []string
 	histB    map[int][][2]string // cached hist handle id -> per bucket lo|hi tokens
@@ -123,6 +123,7 @@ type scopeRun struct {
 	histPairs map[string]map[string]bool // name|tags -> allowed "lo|hi" tokens ("any" when the scope default applies)
 	histUps   map[string]map[string]bool // name|tags -> allowed upper-bound tokens
 	histViol  string
+	sanViol   string
 }
 
 type scopeHow struct {
@@ -155,6 +156,9 @@ func (sr *scopeRun) events() string {
 			name, tags = m.Name, m.Tags
 		}
 		nt := hxs(name) + "|" + mapHex(tags)
+		if e.Kind != "flush" && e.Kind != "close" && !strings.HasPrefix(e.Kind, "bucket") {
+			sr.checkSanitized(name, tags)
+		}
 		switch e.Kind {
 		case "counter":
 			out = append(out, fmt.Sprintf("c|%s|%d", nt, e.I))
@@ -361,6 +365,30 @@ func (sr *scopeRun) noteHist(p int, name string, b tally.Buckets) {
 	}
 }
 
+// checkSanitized: C06's end-to-end clause, independent of the model — every name, tag key and tag value a
+// reporter is handed is a fixed point of the configured sanitizer (sanitizer outputs are closed under
+// concatenation and sanitizing is idempotent, both proved for the model of sanitizeFn; the sanitizer
+// function itself is compared with that model byte for byte by suite c06)
+func (sr *scopeRun) checkSanitized(name string, tags map[string]string) {
+	if sr.sanViol != "" {
+		return
+	}
+	if sr.san.Name(name) != name {
+		sr.sanViol = fmt.Sprintf("metric name %q reached the reporter; the sanitizer turns it into %q", name, sr.san.Name(name))
+		return
+	}
+	for k, v := range tags {
+		if sr.san.Key(k) != k {
+			sr.sanViol = fmt.Sprintf("tag key %q (of %q) reached the reporter; the sanitizer turns it into %q", k, name, sr.san.Key(k))
+			return
+		}
+		if sr.san.Value(v) != v {
+			sr.sanViol = fmt.Sprintf("tag value %q (key %q of %q) reached the reporter; the sanitizer turns it into %q", v, k, name, sr.san.Value(v))
+			return
+		}
+	}
+}
+
 func (sr *scopeRun) checkPair(nt, pair string) {
 	allowed := sr.histPairs[nt]
 	if allowed == nil || allowed["any"] || allowed[pair] || sr.histViol != "" {
@@ -524,7 +552,7 @@ func runScopeProgram(c *Ctx, r *Rng, mode string) {
 	}
 	sep := ""
 	if r.Chance(30) {
-		sep = []string{"_", "::", "-", ".", "é"}[r.Intn(5)]
+		sep = []string{"_", "::", "-", ".", "é", "/", ":", " ", "a+b", "\xff"}[r.Intn(10)]
 	}
 	rootTags := sr.genTags(2)
 	opts := tally.ScopeOptions{Prefix: pfx, Separator: sep, Tags: rootTags, SanitizeOptions: sg.opts, OmitCardinalityMetrics: true}
@@ -900,6 +928,19 @@ func runScopeProgram(c *Ctx, r *Rng, mode string) {
 			nts = append(nts, nt)
 		}
 		sort.Strings(nts)
+		// the oracle identifies a counter by the name and tags it expects the reporter to see; if deliveries arrived
+		// under an identity no counter of this program has, naming is off (C04's concern) and sums cannot be matched
+		known := map[string]bool{}
+		for _, nt := range sr.mNT {
+			known[nt] = true
+		}
+		for nt := range sr.consGot {
+			if !known[nt] {
+				nts = nil
+				c.Cov.Hit("conservation.skipped-unexpected-identity-delivered")
+				break
+			}
+		}
 		for _, nt := range nts {
 			if sr.consFuzzy[nt] {
 				c.Cov.Hit("conservation.skipped-recorded-on-closed-scope")
@@ -914,6 +955,10 @@ func runScopeProgram(c *Ctx, r *Rng, mode string) {
 				break
 			}
 		}
+	}
+	if sr.sanViol != "" {
+		c.Cov.Fail(Failure{Kind: "violated", Clause: "reported-strings-sanitized", Signature: sr.sigBase + "unsanitized-string-reported",
+			Line: strings.Join(sr.lines, " ; "), Reply: sr.sanViol, Detail: strings.Join(sr.lines, "\n")})
 	}
 	if sr.histViol != "" {
 		c.Cov.Fail(Failure{Kind: "violated", Clause: "bounds-of-own-specification", Signature: sr.sigBase + "histogram-bounds",
